@@ -541,8 +541,13 @@ func reader(s *simrt.Sim, sd *side) {
 		if sd.recvLen > 0 && s.GenChance(80) {
 			s.Probe("c01.path.read-then-writeto")
 			for k := 1 + s.Choose(3); k > 0 && cw.off < want; k-- {
-				b := make([]byte, util.Pick(s, []int{1, 17, 512, 4096}))
+				rb := util.NewReadBuf(s, util.Pick(s, []int{1, 17, 512, 4096}))
+				b := rb.B
 				n, err := sd.c.Read(b)
+				if msg := rb.Check(n); msg != "" {
+					s.Fail("c01.buffer-overrun{"+sd.name+"}", "%s at stream offset %d: %s", sd.name, cw.off, msg)
+					return
+				}
 				if n > 0 {
 					if _, werr := cw.Write(b[:n]); werr != nil {
 						return
@@ -585,8 +590,13 @@ func reader(s *simrt.Sim, sd *side) {
 		if m == 0 {
 			m = 1
 		}
-		b := make([]byte, m)
+		rb := util.NewReadBuf(s, m)
+		b := rb.B
 		n, err := sd.c.Read(b)
+		if msg := rb.Check(n); msg != "" {
+			s.Fail("c01.buffer-overrun{"+sd.name+"}", "%s at stream offset %d: %s", sd.name, off, msg)
+			return
+		}
 		if n > 0 {
 			if i := util.CheckStream(b[:n], sd.recvKey, off); i >= 0 {
 				s.Fail("c01.stream-mismatch{"+sd.name+",read}", "%s read a wrong byte at stream offset %d (Read into %d-byte buffer returned %d)", sd.name, off+int64(i), m, n)
